@@ -306,12 +306,28 @@ def dispatch(drv, prop, tier, args):
             os.remove(part)
         if "--replay" in args:
             rp = json.load(open(args[args.index("--replay") + 1]))
+            if rp.get("part", "").startswith("E3i-"):
+                tdir, out = drv.build(guard_on=True, extra=["--bin", "sched"])
+                if tdir is None:
+                    return fail_build(out)
+                return drv.run([os.path.join(tdir, "release", "sched"), "C16", "--root", drv.ROOT] + args, cwd=drv.ROOT)
             return harness(drv, prop, tier, args, guard_on=("guard-on" in rp.get("part", "")))
         rc = harness(drv, prop, tier, args, guard_on=False, extra_args=["--emit-part", part])
         if rc == 2 or not os.path.exists(part):
             print("MACHINERY-ERROR guard-off C16 run did not produce its part", file=sys.stderr)
             return 2
-        return harness(drv, prop, tier, args, guard_on=True, extra_args=["--merge-part", part])
+        # contexts set up and dropped by two threads as the FIRST calls of a fresh process, every schedule in its own process
+        tdir, out = drv.build(guard_on=True, extra=["--bin", "sched"])
+        if tdir is None:
+            return fail_build(out)
+        spart = os.path.join(drv.ROOT, "target", "c16_sched_part.json")
+        if os.path.exists(spart):
+            os.remove(spart)
+        rc = drv.run([os.path.join(tdir, "release", "sched"), "C16", "--root", drv.ROOT, "--emit-part", spart] + args, cwd=drv.ROOT)
+        if rc != 0 or not os.path.exists(spart):
+            print("MACHINERY-ERROR the schedule explorer did not produce its C16 part", file=sys.stderr)
+            return 2
+        return harness(drv, prop, tier, args, guard_on=True, extra_args=["--merge-part", part, "--merge-part", spart])
     if prop in ("C06", "C07"):
         # the concurrent part first (schedule explorer: honest and tampered openers side by side), merged into the
         # harness's evidence
